@@ -1742,6 +1742,54 @@ func rulePAIR7(w *World) []Ob {
 				}
 			}
 		}
+		// a body that itself reports "go on?" as a bool: once a yield — or a helper / recursive call that was handed the
+		// yield and reports the same — has said stop, the body says stop too; a `return true` on that side makes the
+		// caller go on with the siblings
+		if res := fn.Signature.Results(); res.Len() == 1 {
+			if bt, isB := res.At(0).Type().Underlying().(*types.Basic); isB && bt.Kind() == types.Bool {
+				for _, y := range evs {
+					yb, isBool := y.Type().Underlying().(*types.Basic)
+					if !isBool || yb.Kind() != types.Bool {
+						continue
+					}
+					var iff *ssa.If
+					var neg bool
+					var find func(v ssa.Value, n bool)
+					find = func(v ssa.Value, n bool) {
+						if v.Referrers() == nil {
+							return
+						}
+						for _, r := range *v.Referrers() {
+							switch x := r.(type) {
+							case *ssa.If:
+								iff, neg = x, n
+							case *ssa.UnOp:
+								if x.Op == token.NOT {
+									find(x, !n)
+								}
+							}
+						}
+					}
+					find(y, false)
+					if iff == nil {
+						continue
+					}
+					falseSucc := iff.Block().Succs[1]
+					if neg {
+						falseSucc = iff.Block().Succs[0]
+					}
+					for blk := range blockReach(falseSucc, map[*ssa.BasicBlock]bool{y.Block(): true}) {
+						for _, in2 := range blk.Instrs {
+							if r, isR := in2.(*ssa.Return); isR && len(rr(r)) == 1 {
+								if k, isC := constBool(rr(r)[0]); isC && k {
+									bad = "after " + calleeString(y.Common()) + " at " + p.InstrPos(y) + " reported stop, the body returns true at " + p.InstrPos(r) + ": its caller goes on with the remaining nodes"
+								}
+							}
+						}
+					}
+				}
+			}
+		}
 		// a deferred closure that calls yield runs after every other yield, including a failed one
 		allInstrs(fn, func(in ssa.Instruction) {
 			d, ok := in.(*ssa.Defer)
